@@ -16,19 +16,35 @@ func init() {
 	verifHarnesses["HarnessC12In"] = HarnessC12In
 }
 
+// c12Snapshot copies the L_Data part of a tunnelling request at the moment it is handed to the
+// socket (what a real socket would have put on the wire then): the in-memory socket keeps object
+// references, and a payload buffer that the sender legitimately reuses after Send has returned must
+// not look like a changed frame.
+func c12Snapshot(p knxnet.ServicePackable) *cemi.LData {
+	req, ok := p.(*knxnet.TunnelReq)
+	verifAssert("C12.out.kind", ok)
+	m, ok := req.Payload.(*cemi.LDataReq)
+	verifAssert("C12.out.req", ok && m.MessageCode() == cemi.LDataReqCode)
+	ld := m.LData
+	if app, ok := ld.Data.(*cemi.AppData); ok {
+		cp := *app
+		cp.Data = append([]byte(nil), app.Data...)
+		ld.Data = &cp
+	}
+	return &ld
+}
+
 // HarnessC12OutWB: a = {payload length}: GroupTunnel.Send on a TCP-mode tunnel over the in-memory socket.
 func HarnessC12OutWB(a []int) {
 	n := a[0]
 	ev := c12Event(n)
 	sock := newVSock()
+	var sent []*cemi.LData
+	sock.onSend = func(p knxnet.ServicePackable) { sent = append(sent, c12Snapshot(p)) }
 	gt := GroupTunnel{Tunnel: &Tunnel{sock: sock, config: TunnelConfig{UseTCP: true}, channel: nondetU8()}}
 	err := gt.Send(ev)
-	verifAssert("C12.out.sent", err == nil && len(sock.log) == 1)
-	req, ok := sock.log[0].(*knxnet.TunnelReq)
-	verifAssert("C12.out.kind", ok)
-	m, ok := req.Payload.(*cemi.LDataReq)
-	verifAssert("C12.out.req", ok && m.MessageCode() == cemi.LDataReqCode)
-	c12CheckLData(&m.LData, ev, n, false)
+	verifAssert("C12.out.sent", err == nil && len(sent) == 1)
+	c12CheckLData(sent[0], ev, n, false)
 	verifCover("C12.outwb.end")
 }
 
@@ -36,10 +52,12 @@ func HarnessC12OutWB(a []int) {
 func HarnessC12OutSeqWB(a []int) {
 	ev1, ev2 := c12Event(a[0]), c12Event(a[1])
 	sock := newVSock()
+	var sent []*cemi.LData
+	sock.onSend = func(p knxnet.ServicePackable) { sent = append(sent, c12Snapshot(p)) }
 	gt := GroupTunnel{Tunnel: &Tunnel{sock: sock, config: TunnelConfig{UseTCP: true}, channel: nondetU8()}}
-	verifAssert("C12.out.sent", gt.Send(ev1) == nil && gt.Send(ev2) == nil && len(sock.log) == 2)
-	c12CheckLData(&sock.log[0].(*knxnet.TunnelReq).Payload.(*cemi.LDataReq).LData, ev1, a[0], false)
-	c12CheckLData(&sock.log[1].(*knxnet.TunnelReq).Payload.(*cemi.LDataReq).LData, ev2, a[1], false)
+	verifAssert("C12.out.sent", gt.Send(ev1) == nil && gt.Send(ev2) == nil && len(sent) == 2)
+	c12CheckLData(sent[0], ev1, a[0], false)
+	c12CheckLData(sent[1], ev2, a[1], false)
 	verifCover("C12.outseqwb.end")
 }
 
